@@ -19,7 +19,9 @@
    transferred to the mutex queue: its re-acquisition is a fresh, never-queued attempt too), and a mix that turns from the
    adversarial schedule to a random one once the victim is about to escalate, with the barger releasing the mutex at the most
    delicate moment it can see: while the long waiter holds the queue spinlock to queue itself again (mix 7; this one belongs to
-   C02 as much as to C14: the long waiter must still be handed the mutex).
+   C02 as much as to C14: the long waiter must still be handed the mutex), and a mix whose competitor never leaves the mutex
+   except inside nsync_mu_wait_with_deadline with an already expired deadline and a condition that is never true (mix 8: every
+   such call releases the mutex, queues, times out at once and takes the mutex back through the timeout path).
 
    Oracles: the number of times the victim sleeps inside ONE lock call is at most
    LONG_WAIT_THRESHOLD + 2 (the constant is read from the tree under test; checked while it is still inside, by the bargers, and on
@@ -46,7 +48,7 @@ static struct {
 	unsigned max_sleeps;
 	unsigned hist[40];
 } S;
-enum { CV_ACQ = 0, CV_SLEEPS, CV_BARGE_OK, CV_BARGE_FAIL, CV_LONGWAIT_SET, CV_MAX31, CV_FRESH, CV_GROUP_STRAGGLER, CV_CVRET, CV_CVRET_FORCED, CV_REL_IN_SPIN };
+enum { CV_ACQ = 0, CV_SLEEPS, CV_BARGE_OK, CV_BARGE_FAIL, CV_LONGWAIT_SET, CV_MAX31, CV_FRESH, CV_GROUP_STRAGGLER, CV_CVRET, CV_CVRET_FORCED, CV_REL_IN_SPIN, CV_MUWAIT_TO };
 
 #define READER_MIX (S.mix == 1 || S.mix == 5)
 static int is_victim (int tid) { return (tid < S.nvict); }
@@ -186,7 +188,33 @@ static void cv_returner (int tid) {
 	__atomic_store_n (&S.fresh_in_call, 0, __ATOMIC_RELEASE);
 	RT_OP ("nsync_mu_unlock", nsync_mu_unlock (&S.mu));
 }
-static void body (int tid) { if (is_victim (tid)) victim (tid); else if (S.mix == 4 && tid == S.nvict + S.nbarg - 1 && S.nbarg > 1) fresh_locker (tid); else if (S.mix == 6 && tid == S.nvict + S.nbarg - 1) cv_returner (tid); else barger (tid); }
+/* mix 8: the competitor holds the mutex and gives it up only inside timed-out conditional waits */
+static int never_true (const void *v) { (void) v; return (0); }
+static void muwait_competitor (int tid) {
+	int guard = 0, v; int64_t t0 = rt_now_ns ();
+	(void) tid;
+	RT_OP ("nsync_mu_lock", nsync_mu_lock (&S.mu));
+	__atomic_store_n (&S.barger_holds, 1, __ATOMIC_RELEASE);
+	while (__atomic_load_n (&S.victim_done, __ATOMIC_ACQUIRE) < S.nvict) {
+		int spins = 0;
+		/* hold until every unfinished victim that is inside a lock call sleeps (Mode B), or briefly (Mode A) */
+		if (rt_mode_b ()) {
+			for (;;) {
+				int all = 1;
+				for (v = 0; v < S.nvict; v++) if (!__atomic_load_n (&S.vdone[v], __ATOMIC_ACQUIRE) && !(__atomic_load_n (&S.in_call[v], __ATOMIC_ACQUIRE) && rt_thread_in_wait (v))) all = 0;
+				if (all || __atomic_load_n (&S.victim_done, __ATOMIC_ACQUIRE) >= S.nvict || ++spins > 20000) break;
+				rt_yield ();
+			}
+		} else { volatile int k; for (k = 0; k < 2000; k++) { } }
+		RT_OP ("nsync_mu_wait_with_deadline", nsync_mu_wait_with_deadline (&S.mu, &never_true, NULL, NULL, rt_now (), NULL));
+		rt_cover (CV_MUWAIT_TO);
+		for (v = 0; v < S.nvict; v++) check_overtaken (v);
+		if (overdue (&guard, t0)) rt_fatal ("muwait competitor loop did not end");
+	}
+	__atomic_store_n (&S.barger_holds, 0, __ATOMIC_RELEASE);
+	RT_OP ("nsync_mu_unlock", nsync_mu_unlock (&S.mu));
+}
+static void body (int tid) { if (is_victim (tid)) victim (tid); else if (S.mix == 4 && tid == S.nvict + S.nbarg - 1 && S.nbarg > 1) fresh_locker (tid); else if (S.mix == 6 && tid == S.nvict + S.nbarg - 1) cv_returner (tid); else if (S.mix == 8) muwait_competitor (tid); else barger (tid); }
 
 static int adversary (int self, int forced, const int *run, int n) {
 	static int chain;
@@ -208,12 +236,12 @@ static int adversary (int self, int forced, const int *run, int n) {
 static int setup (uint64_t seed) {
 	(void) seed;
 	nsync_mu_init (&S.mu); nsync_cv_init (&S.cv);
-	S.mix = (int) rt_param ("mix", -1); if (S.mix < 0) S.mix = (int) rt_rand_n (8);
+	S.mix = (int) rt_param ("mix", -1); if (S.mix < 0) S.mix = (int) rt_rand_n (9);
 	S.nvict = S.mix == 3 ? 2 : S.mix == 5 ? 2 + (int) rt_rand_n (2) : 1;
 	S.nbarg = 1 + (int) rt_rand_n (2);
 	if (S.mix == 5 && S.nvict == 3) S.nbarg = 1;
 	if (S.mix == 4) S.nbarg = 2;      /* one try-lock barger and one fresh blocking locker */
-	if (S.mix == 7) S.nbarg = 1;
+	if (S.mix == 7 || S.mix == 8) S.nbarg = 1;
 	if (S.mix == 6) S.nbarg = 2;      /* one try-lock barger and one thread that keeps returning from timed-out cv waits */
 	S.nacq = 1 + (int) rt_rand_n (2);
 	S.victim_done = 0; S.barger_holds = 0; S.window = 0; S.fresh_in_call = 0; S.fresh_tid = (S.mix == 4 || S.mix == 6) ? S.nvict + S.nbarg - 1 : 0; S.in_call[0] = S.in_call[1] = S.in_call[2] = 0; S.vdone[0] = S.vdone[1] = S.vdone[2] = 0; memset (S.queued, 0, sizeof (S.queued));
@@ -223,11 +251,11 @@ static int setup (uint64_t seed) {
 }
 static void check (void) { if ((sc_word (&S.mu.word) & (SC_MU_ANY_LOCK | 2u | MU_LONG_WAIT)) != 0) rt_violation ("final-word", "held", "after every thread finished the mutex word is %#x", sc_word (&S.mu.word)); }
 static void teardown (void) { rt_watch_word (0, NULL, NULL); }
-static void describe (FILE *f) { static const char *const mn[] = { "writer victim / trylock bargers", "reader victim / trylock bargers", "writer victim / rtrylock bargers", "two writer victims / trylock bargers", "writer victim / trylock barger + fresh blocking lockers", "group of reader victims / trylock bargers", "writer victim / trylock barger + a thread returning from timed-out cv waits", "writer victim / trylock barger, random schedule after escalation, release while the victim holds the queue spinlock" };
+static void describe (FILE *f) { static const char *const mn[] = { "writer victim / trylock bargers", "reader victim / trylock bargers", "writer victim / rtrylock bargers", "two writer victims / trylock bargers", "writer victim / trylock barger + fresh blocking lockers", "group of reader victims / trylock bargers", "writer victim / trylock barger + a thread returning from timed-out cv waits", "writer victim / trylock barger, random schedule after escalation, release while the victim holds the queue spinlock", "writer victim / competitor that leaves the mutex only inside timed-out conditional waits" };
 	fprintf (f, "{\"mix\":\"%s\",\"bargers\":%d,\"victim_acquisitions\":%d,\"max_sleeps_in_one_call_so_far\":%u}", mn[S.mix], S.nbarg, S.nacq, S.max_sleeps); }
 static void summary (FILE *f) { int i; fprintf (f, "\"sleeps_histogram\":["); for (i = 0; i < 40; i++) fprintf (f, "%s%u", i ? "," : "", S.hist[i]); fprintf (f, "]"); }
 static void pinit (void) {
 	rt_cover_name (CV_ACQ, "victim_acquisitions"); rt_cover_name (CV_SLEEPS, "victim_sleeps_total"); rt_cover_name (CV_BARGE_OK, "barger_trylock_ok"); rt_cover_name (CV_BARGE_FAIL, "barger_trylock_failed");
-	rt_cover_name (CV_LONGWAIT_SET, "long_wait_bit_set"); rt_cover_name (CV_MAX31, "acquisitions_that_needed_31_or_more_sleeps"); rt_cover_name (CV_FRESH, "fresh_blocking_attempts_in_the_window"); rt_cover_name (CV_CVRET, "returns_from_timed_out_cv_waits_by_a_competitor"); rt_cover_name (CV_REL_IN_SPIN, "releases_while_the_long_waiter_held_the_queue_spinlock"); rt_cover_name (CV_CVRET_FORCED, "cv_timeouts_fired_in_the_window_after_escalation"); rt_cover_name (CV_GROUP_STRAGGLER, "reader_group_stragglers_overtaken_after_the_bit_was_cleared");
+	rt_cover_name (CV_LONGWAIT_SET, "long_wait_bit_set"); rt_cover_name (CV_MAX31, "acquisitions_that_needed_31_or_more_sleeps"); rt_cover_name (CV_FRESH, "fresh_blocking_attempts_in_the_window"); rt_cover_name (CV_CVRET, "returns_from_timed_out_cv_waits_by_a_competitor"); rt_cover_name (CV_MUWAIT_TO, "timed_out_conditional_waits_by_a_competitor"); rt_cover_name (CV_REL_IN_SPIN, "releases_while_the_long_waiter_held_the_queue_spinlock"); rt_cover_name (CV_CVRET_FORCED, "cv_timeouts_fired_in_the_window_after_escalation"); rt_cover_name (CV_GROUP_STRAGGLER, "reader_group_stragglers_overtaken_after_the_bit_was_cleared");
 }
 rt_scenario rt_scen = { "starve", "C14", 4, &pinit, &setup, &body, &check, &teardown, &describe, &summary, NULL, &adversary };
